@@ -57,7 +57,7 @@ theorem addWrite_eq {s : State} {q : Pending} {P : List Pending} (hp : s.pending
 
 theorem addInsert_eq {s : State} {q : Pending} {P : List Pending} (hp : s.pending = q :: P) (hq : q.stage = .written) :
     addInsert s q = ({ s with pending := P, reg := regPut s.reg ⟨q.id, freshFields q.m q.o q.port⟩,
-                              idx := s.idx ++ [(q.m.infoHash, q.id)] }, .ok q) := by
+                              idx := s.idx ++ [(q.m.infoHash, q.id)], invalid := s.invalid.erase q.id }, .ok q) := by
   unfold addInsert
   simp [hp, hq]
 
@@ -240,10 +240,10 @@ theorem registryEqDb_of_inv {s : State} (h : Inv s) (hd : DInv s) (hp : s.pendin
     have hfil : s.invalid.filter (fun i => !(s.reg.map (·.id)).contains i) = s.invalid := by
       apply List.filter_eq_self.2
       intro i hi
-      have := (hd.fresh i hi).1
+      have := hd.fresh i hi
       simpa [State.regIds] using this
-    rw [hfil, hd.inv, List.map_append]
-    refine List.Perm.append ?_ (List.Perm.refl _)
+    rw [hfil, List.map_append]
+    refine List.Perm.append ?_ (hd.invalid_perm hp).symm
     simpa [State.dbIds, State.regIds, written] using this
   · intro t ht
     obtain ⟨r, hr, hd⟩ := h.synced t ht
